@@ -60,12 +60,16 @@ Inductive dgram :=
 | DLenErr                 (* unpackDatagram fails with ErrInvalidPacketLength *)
 | DOtherErr               (* unpackDatagram fails with another error: first byte is no DTLS 1.3 record type,
                              unified header cut short, connection-id bit without a connection id ... *)
+| DOversized              (* a datagram longer than the buffer the connection reads with (conn.go inboundBufferSize; the
+                             listener receives into a buffer of the same size, internal/net/udp receiveMTU) whose part
+                             that fits does not split into records: it is TAKEN from the transport - consumed, not left
+                             at the head of the per-connection queue - and then dropped like any other framing error *)
 | DRecs (rs : list drec). (* the datagram splits into records *)
 
 (* a datagram that cannot be parsed as DTLS records *)
 Definition undecodable (d : dgram) : Prop :=
   match d with
-  | DEmpty | DLenErr | DOtherErr => True
+  | DEmpty | DLenErr | DOtherErr | DOversized => True
   | DRecs rs => Forall (fun r => r = RBadHeader) rs
   end.
 
@@ -129,8 +133,20 @@ Fixpoint recv_recs (W : nat) (full est : bool) (s : rstate) (rs : list drec) : r
 Definition recv_dgram (W : nat) (full est : bool) (s : rstate) (d : dgram) : rstate * list out :=
   if r_closed s then (s, []) else
   match d with
-  | DEmpty | DLenErr | DOtherErr => (s, [])
+  | DEmpty | DLenErr | DOtherErr | DOversized => (s, [])
   | DRecs rs => recv_recs W full est s rs
+  end.
+
+(* the transport step (listener -> per-connection packet queue -> Conn.readAndProcessDatagram), drop-and-continue:
+   the connection reads the head of its queue; a datagram that it cannot take as DTLS records - the oversized one
+   included - is CONSUMED (the queue advances) and the connection state is unchanged.  [pump] is the read loop run
+   over a queue of datagrams. *)
+Fixpoint pump (W : nat) (full est : bool) (s : rstate) (q : list dgram) : rstate * list out :=
+  match q with
+  | [] => (s, [])
+  | d :: q' =>
+      let '(s1, o1) := recv_dgram W full est s d in
+      let '(s2, o2) := pump W full est s1 q' in (s2, o1 ++ o2)
   end.
 
 (* ---------- forged input, and histories with forged input removed ---------- *)
